@@ -136,6 +136,8 @@ def c141(ctx):
                             primes += 1
                     if rv.get("r") == "use" and rv["a"].get("k") == "const" and (rv["a"]["c"].get("named") or "").endswith("SETSUM_PRIMES"):
                         primes += 1
+            if _checked_sub_reductions(f):
+                ge, sub, primes = max(ge, 1), max(sub, 1), max(primes, 1)      # `x.checked_sub(p).unwrap_or(x)` is the same reduction
             ctx.check(R, f, "conditional-subtraction", ge >= 1 and sub >= 1 and primes >= 1, "%s compares with the prime and subtracts it (Ge=%d Sub=%d)" % (name, ge, sub),
                       "%s no longer reduces modulo SETSUM_PRIMES" % name)
     f = ctx.fn(R, S + "invert_state")
@@ -459,6 +461,21 @@ def _ix_roots(f, o, depth=0):
     return out
 
 
+def _checked_sub_reductions(f):
+    """[(point of checked_sub, point of unwrap_or)] for `x.checked_sub(prime).unwrap_or(x)`: subtracts the prime exactly when x >= prime."""
+    out = []
+    for p_ in P.call_points(f, r"::checked_sub$"):
+        t = P.term_at(f, p_)
+        if len(t["args"]) != 2 or not _is_prime_op(f, t["args"][1]):
+            continue
+        x = K.root_local(f, t["args"][0])
+        for q_ in P.call_points(f, r"Option::unwrap_or$"):
+            u = P.term_at(f, q_)
+            if any(s_["k"] == "call" and s_.get("pt") == p_ for s_ in P.origins(f, u["args"][0])) and K.root_local(f, u["args"][1]) == x:
+                out.append((p_, q_))
+    return out
+
+
 def c146(ctx):
     """Reduction modulo the column's prime is exact: the value is compared with the prime with `>=` (a column equal to p must become 0:
     digests compare columns for equality) and the prime subtracted on exactly that edge is the prime of the same column; in add_state
@@ -471,6 +488,10 @@ def c146(ctx):
             continue
         subs = [((b.idx, j), st) for b in f.blocks for j, st in enumerate(b.st)
                 if st["s"] == "=" and st["rv"]["r"] == "bin" and st["rv"]["op"] in ("Sub", "SubWithOverflow", "SubUnchecked") and _is_prime_op(f, st["rv"]["b"])]
+        csr = _checked_sub_reductions(f)
+        if not subs and len(csr) == 1:
+            ctx.ok(R, f, "%s reduces with x.checked_sub(prime).unwrap_or(x): the prime is subtracted exactly when x >= prime, at one site" % name, [csr[0][0]])
+            continue
         ctx.check(R, f, "one-reduction", len(subs) == 1, "%s subtracts the prime at one site" % name, "expected one `x - prime` in %s, found %d" % (name, len(subs)))
         for sp, st in subs:
             x = K.root_local(f, st["rv"]["a"])
